@@ -509,16 +509,31 @@ pub fn compare(want: &Reference, got: &Obs) -> Option<(String, String)> {
     }
 }
 
-/// A panic is always a violation; the key names the cause so that K5/K6 stay apart from anything new.
+/// A panic is always a violation. The two known findings are recognised only by the input that
+/// fails AND the exact known behaviour (message and call site inside http-types); the same
+/// input failing differently, or another input failing the same way, gets the generic panic key
+/// and is therefore reported as an unlisted violation.
 fn classify_panic(p: &PanicInfo, ix: CaseIx, al: &Alphabets) -> String {
+    let at = |suffix: &str| p.file.contains("http-types") && p.file.ends_with(suffix);
     if let CaseIx::Response { status, headers, .. } = ix {
-        if p.message.starts_with("Could not convert into a valid `StatusCode`")
-            && StatusCode::try_from(status).is_err()
+        // K5: status outside http-types' enum -> http_types::Response::new(..).expect(..)
+        if StatusCode::try_from(status).is_err()
+            && p.message.starts_with("Could not convert into a valid `StatusCode`: Invalid status code")
+            && at("/src/response.rs")
         {
             return "status-not-in-enum".into();
         }
-        let non_ascii = al.header_sets[headers].1.iter().any(|(n, v)| !n.is_ascii() || !v.is_ascii());
-        if non_ascii && p.message.contains("String slice should be valid ASCII") {
+        // K6: non-ASCII header name -> HeaderName::from(&str); non-ASCII value -> Headers::insert unwrap
+        let hs = &al.header_sets[headers].1;
+        let name_bad = hs.iter().any(|(n, _)| !n.is_ascii());
+        let value_bad = hs.iter().any(|(_, v)| !v.is_ascii());
+        let known_name_panic = p.message.starts_with("String slice should be valid ASCII")
+            && at("/src/headers/header_name.rs");
+        let known_value_panic = p
+            .message
+            .starts_with("called `Result::unwrap()` on an `Err` value: String slice should be valid ASCII")
+            && at("/src/headers/headers.rs");
+        if (name_bad && known_name_panic) || (value_bad && known_value_panic) {
             return "header-non-ascii".into();
         }
     }
@@ -861,6 +876,7 @@ fn self_checks(al: &Alphabets) -> Value {
         compare(&Reference::Async("err:json".into()), &Obs::Async("ok:Payload".into())),
         Some((k, _)) if k == "response/undecodable-body-accepted"
     ) as u32;
+    known_key_canaries(al);
     if rejected != 14 {
         mc_kit::machinery_error(&format!("C15 canary: only {rejected}/14 reference checks came out right"));
     }
@@ -870,7 +886,52 @@ fn self_checks(al: &Alphabets) -> Value {
     if a.outcome != b.outcome || a.trace != b.trace {
         mc_kit::machinery_error("C15: the same case gave two different observations");
     }
-    json!({"canary_wrong_references_rejected": rejected})
+    json!({"canary_wrong_references_rejected": rejected, "known_key_canary_K5_K6_variants_kept_apart": 12})
+}
+
+/// The known-finding keys must not absorb anything that differs from the known behaviour.
+fn known_key_canaries(al: &Alphabets) {
+    const HT: &str = "/root/.cargo/registry/src/x/http-types-red-badger-temporary-fork-2.12.0/src";
+    let pi = |message: &str, file: String| PanicInfo { message: message.to_string(), file, line: 1 };
+    let hs = |name: &str| al.header_sets.iter().position(|h| h.0 == name).expect("header set");
+    let resp = |status: u16, headers: usize| CaseIx::Response { api: 0, expect: 0, status, headers, body: 0 };
+    let k5_msg = "Could not convert into a valid `StatusCode`: Invalid status code";
+    let k6_value_msg = "called `Result::unwrap()` on an `Err` value: String slice should be valid ASCII";
+    let k6_name_msg = "String slice should be valid ASCII: String slice should be valid ASCII";
+    let (none, bad_value, bad_name, ascii) = (hs("none"), hs("non-ascii-value"), hs("non-ascii-name"), hs("empty-name"));
+    let checks: Vec<(&str, String, bool)> = vec![
+        // (what, key, must be the known key)
+        ("K5 genuine", classify_panic(&pi(k5_msg, format!("{HT}/response.rs")), resp(299, none), al), true),
+        ("K5 status inside the enum", classify_panic(&pi(k5_msg, format!("{HT}/response.rs")), resp(200, none), al), false),
+        ("K5 other message", classify_panic(&pi("attempt to subtract with overflow", format!("{HT}/response.rs")), resp(299, none), al), false),
+        ("K5 other call site", classify_panic(&pi(k5_msg, "/repo/crux_http/src/protocol.rs".into()), resp(299, none), al), false),
+        ("K6 genuine value", classify_panic(&pi(k6_value_msg, format!("{HT}/headers/headers.rs")), resp(200, bad_value), al), true),
+        ("K6 genuine name", classify_panic(&pi(k6_name_msg, format!("{HT}/headers/header_name.rs")), resp(200, bad_name), al), true),
+        ("K6 ASCII header", classify_panic(&pi(k6_value_msg, format!("{HT}/headers/headers.rs")), resp(200, ascii), al), false),
+        ("K6 other message", classify_panic(&pi("index out of bounds", format!("{HT}/headers/headers.rs")), resp(200, bad_value), al), false),
+        ("K6 other call site", classify_panic(&pi(k6_value_msg, "/repo/crux_http/src/response/response.rs".into()), resp(200, bad_value), al), false),
+        ("K6 name panic for a value input", classify_panic(&pi(k6_name_msg, format!("{HT}/headers/header_name.rs")), resp(200, bad_value), al), false),
+    ];
+    for (what, key, must_be_known) in checks {
+        let is_known = key == "status-not-in-enum" || key == "header-non-ascii";
+        if is_known != must_be_known {
+            mc_kit::machinery_error(&format!("C15 known-key canary '{what}': key {key}"));
+        }
+    }
+    // no panic at all: a status outside the enum delivered under another status, and a
+    // non-ASCII header silently dropped, are ordinary (unlisted) deviations
+    let mapped = compare(
+        &reference(resp(299, none), al),
+        &Obs::Ok { status: 200, headers: vec![], body: ObsBody::Bytes(vec![]) },
+    );
+    let dropped = compare(
+        &reference(resp(200, bad_value), al),
+        &Obs::Ok { status: 200, headers: vec![], body: ObsBody::Bytes(vec![]) },
+    );
+    match (&mapped, &dropped) {
+        (Some((a, _)), Some((b, _))) if a == "response/status-altered" && b == "response/header-lost" => {}
+        other => mc_kit::machinery_error(&format!("C15 known-key canary (silent alteration): {other:?}")),
+    }
 }
 
 pub fn replay(path: &str) -> i32 {
